@@ -125,6 +125,19 @@ class Scenario:
             RE.subscribe(consumer)
         loop.is_run_step = lambda h: RE._task is not None and getattr(h._callback, "__self__", None) is RE._task
         loop.active = lambda: RE._task is not None and not RE._task.done()
+        started = []
+
+        def is_startup(h):
+            import asyncio
+            t = getattr(h._callback, "__self__", None)
+            if started or not hasattr(t, "get_coro") or RE._task is not None:
+                return False
+            if getattr(t.get_coro(), "__qualname__", "") != "RunEngine._run":
+                return False
+            started.append(t)
+            return True
+        loop.is_startup = is_startup
+        self._started = started
         loop.hold_time = lambda: str(RE._state) == "paused"
         devs = build_devices(sc.get("devices", {}), rec, loop)
         self.devs = devs
@@ -230,7 +243,7 @@ class Scenario:
 
         def pick(p, kind):
             rec.sched.append((p, kind, len(rec.events)))
-            lst = inj.pop(p, None)
+            lst = inj.pop("startup", None) if kind == "startup" else inj.pop(p, None)
             if not lst and kind == "blocked":
                 lst = inj.pop("blocked", None)     # requests scheduled for "whenever the engine waits for something external"
             if not lst:
